@@ -29,6 +29,8 @@ def parseOp? (t : String) : Option Op :=
   | ["es", k, a, v] => do pure (.extSet (← k.toNat?) (← a.toNat?) (← v.toInt?))
   | ["ed", k] => do pure (.extDel (← k.toNat?))
   | ["ei", k, v] => do pure (.extIns (← k.toNat?) (← v.toInt?))
+  | ["dt", k] => do pure (.detach (← k.toNat?))
+  | ["at", k, m] => do pure (.attach (← k.toNat?) (← parseBool? m))
   | _ => none
 
 def parseOps? (s : String) : Option (List Op) :=
